@@ -148,6 +148,19 @@ where
     /// ```
     pub fn find(&self, prefix: P) -> Option<TrieView<'a, P, T>> {
         let mut idx = self.loc.idx();
+        // The search below assumes that `prefix` is contained within the first node of the view.
+        let top = &self.table[idx].prefix;
+        if !top.contains(&prefix) {
+            return if prefix.contains(top) {
+                // `prefix` covers all nodes of this view.
+                Some(Self {
+                    table: self.table,
+                    loc: ViewLoc::Virtual(prefix, idx),
+                })
+            } else {
+                None
+            };
+        }
         loop {
             match self.table.get_direction_for_insert(idx, &prefix) {
                 DirectionForInsert::Enter { next, .. } => {
@@ -262,6 +275,10 @@ where
     /// ```
     pub fn find_lpm(&self, prefix: &P) -> Option<TrieView<'a, P, T>> {
         let mut idx = self.loc.idx();
+        // no node of this view can cover `prefix` if the first one does not.
+        if !self.table[idx].prefix.contains(prefix) {
+            return None;
+        }
         let mut best_match = None;
         loop {
             if self.table[idx].value.is_some() {
@@ -696,6 +713,17 @@ where
         // is still not covered by any other view), while dropping `self`.
 
         let mut idx = self.loc.idx();
+        // The search below assumes that `prefix` is contained within the first node of the view.
+        let top = &self.table[idx].prefix;
+        if !top.contains(&prefix) {
+            return if prefix.contains(top) {
+                // `prefix` covers all nodes of this view.
+                let new_loc = ViewLoc::Virtual(prefix, idx);
+                unsafe { Ok(Self::new(self.table, new_loc)) }
+            } else {
+                Err(self)
+            };
+        }
         loop {
             match self.table.get_direction_for_insert(idx, &prefix) {
                 DirectionForInsert::Enter { next, .. } => {
@@ -806,6 +834,10 @@ where
     /// ```
     pub fn find_lpm(self, prefix: &P) -> Result<Self, Self> {
         let mut idx = self.loc.idx();
+        // no node of this view can cover `prefix` if the first one does not.
+        if !self.table[idx].prefix.contains(prefix) {
+            return Err(self);
+        }
         let mut best_match = None;
         loop {
             if self.table[idx].value.is_some() {
